@@ -483,6 +483,7 @@ def run(ctx, config='rel-all'):
     # ---- R9 helpers, accessors, Drain iterator glue
     from . import helpers
     helpers.check_string(ctx, config, 'R9')
+    helpers.check_effect(ctx, config, 'R11', ('src/collections/string.rs', 'src/collections/str/'))
     # ---- R10 a refused growth request (a panic or an Err in this crate, not an abort) never finds the bytes half written
     from . import allocatomic
     allocatomic.check(ctx, config, 'R10')
